@@ -159,12 +159,25 @@ func TestGovcBoundedPacers(t *testing.T) {
 					break
 				}
 				sNow := sp.s(tm)
+				pastZero := false
 				if sp.class == "linear/slope<0" {
 					// beyond the instant where the declared rate reaches zero the schedule is not defined
 					lp := sp.p.(LinearPacer)
-					if lp.Rate(tm) <= 0 || lp.Rate(tm+wait) <= 0 {
+					if lp.Rate(tm) <= 0 {
+						// the declared rate has reached zero: nothing more is due, ever; a pacer that does not
+						// stop here goes on releasing hits against a schedule that has none left
+						key := sp.class + "/no-stop-after-the-rate-reached-zero"
+						if !bad[key] {
+							bad[key] = true
+							count[key]++
+						}
+						if !seen[key] {
+							seen[key] = true
+							fmt.Printf("BOUNDED-VIOLATION %s :: %s stall=%s t=%v hits=%d rate=%.3f/s (consulted after its rate reached zero, the pacer neither stopped: wait=%v)\n", key, sp.name, stall, tm, h, lp.Rate(tm), wait)
+						}
 						break
 					}
+					pastZero = lp.Rate(tm+wait) <= 0 // this release crosses the zero-rate instant: not compared, but the next consult must stop
 				}
 				tol := eps + math.Abs(sNow)*1e-9
 				if wait > 0 && sNow >= float64(h+1)+tol {
@@ -198,9 +211,12 @@ func TestGovcBoundedPacers(t *testing.T) {
 					break // virtual clock overflow
 				}
 				if sp.class == "linear/slope<0" && sp.p.(LinearPacer).Rate(tm) <= 0 {
-					break // an injected stall carried the clock past the instant where the declared rate reaches zero
+					pastZero = true // also when an injected stall carried the clock past the zero-rate instant
 				}
 				h++
+				if pastZero {
+					continue
+				}
 				sRel := sp.s(tm)
 				tol = eps + math.Abs(sRel)*1e-9
 				if float64(h) > sRel+1+tol {
